@@ -1861,6 +1861,20 @@ func (_toPropertyKey) exec(vm *vm) {
 	vm.pc++
 }
 
+// _toPropertyKeyObj converts an object key on the top of the stack to a property key (once), for a
+// member reference that is both read (getElem) and written (setElem). Primitive keys are left alone
+// so that getElem / setElem keep their integer fast paths. If the base (below the key) is undefined
+// or null the key is not converted: getElem throws the TypeError first, as before.
+type _toPropertyKeyObj struct{}
+
+func (_toPropertyKeyObj) exec(vm *vm) {
+	p := vm.sp - 1
+	if o, ok := vm.stack[p].(*Object); ok && vm.stack[p-1].baseObject(vm.r) != nil {
+		vm.stack[p] = toPropertyKey(o)
+	}
+	vm.pc++
+}
+
 type _toString struct{}
 
 func (_toString) exec(vm *vm) {
